@@ -675,12 +675,12 @@ end main
 
 theorem scanNext_kv (dn : Bool) (B : Bytes) (h1 : ∀ t, B ≠ 13 :: 10 :: t) (h2 : ∀ t, B ≠ 10 :: t)
     (x n n1 : Nat) (hx : indexByte 10 B = some x) (hn : indexByte 58 B = some n) (hxn : ¬ x < n)
-    (hn1 : indexByte 10 ((B.drop (n + 1)).drop ((B.drop (n + 1)).takeWhile (· == 32)).length) = some n1) :
+    (hn1 : indexByte 10 ((B.drop (n + 1)).drop ((B.drop (n + 1)).takeWhile isOWS).length) = some n1) :
     ∃ key value, scanNext dn B = .kv key value
-      (((B.drop (n + 1)).drop ((B.drop (n + 1)).takeWhile (· == 32)).length).drop
-        (n1 + contExtra (((B.drop (n + 1)).drop ((B.drop (n + 1)).takeWhile (· == 32)).length).drop (n1 + 1)) + 1))
-      (n + 1 + ((B.drop (n + 1)).takeWhile (· == 32)).length +
-        (n1 + contExtra (((B.drop (n + 1)).drop ((B.drop (n + 1)).takeWhile (· == 32)).length).drop (n1 + 1))) + 1) := by
+      (((B.drop (n + 1)).drop ((B.drop (n + 1)).takeWhile isOWS).length).drop
+        (n1 + contExtra (((B.drop (n + 1)).drop ((B.drop (n + 1)).takeWhile isOWS).length).drop (n1 + 1)) + 1))
+      (n + 1 + ((B.drop (n + 1)).takeWhile isOWS).length +
+        (n1 + contExtra (((B.drop (n + 1)).drop ((B.drop (n + 1)).takeWhile isOWS).length).drop (n1 + 1))) + 1) := by
   unfold scanNext
   split
   · exact absurd rfl (h1 _)
@@ -714,11 +714,13 @@ theorem indexByte_drop (c : UInt8) : ∀ (B : Bytes) (m x : Nat), indexByte c B 
       simpa using this
 
 theorem takeWhile_sp_le : ∀ (A : Bytes) (y : Nat), indexByte 10 A = some y →
-    (A.takeWhile (· == 32)).length ≤ y
+    (A.takeWhile isOWS).length ≤ y
   | [], y, h => by simp [indexByte] at h
   | a :: A, y, h => by
     by_cases ha : a = 10
-    · subst ha; simp [List.takeWhile]
+    · subst ha
+      have h10 : isOWS 10 = false := by decide
+      simp [List.takeWhile, h10]
     · simp only [indexByte, ha, if_false, Option.map_eq_some_iff] at h
       obtain ⟨y', hy', hyy⟩ := h
       subst hyy
@@ -749,7 +751,7 @@ theorem scanNext_line (dn : Bool) (l t : Bytes) (hl : FieldLineOk l) (ht : contE
   have hA : indexByte 10 ((l ++ 13 :: 10 :: t).drop (n + 1)) = some (l.length + 1 - (n + 1)) :=
     indexByte_drop 10 _ (n + 1) _ hx (by omega)
   have hsp := takeWhile_sp_le _ _ hA
-  have hB1 := indexByte_drop 10 _ (((l ++ 13 :: 10 :: t).drop (n + 1)).takeWhile (· == 32)).length _ hA hsp
+  have hB1 := indexByte_drop 10 _ (((l ++ 13 :: 10 :: t).drop (n + 1)).takeWhile isOWS).length _ hA hsp
   have h1 : ∀ t', l ++ 13 :: 10 :: t ≠ 13 :: 10 :: t' := by
     intro t' h
     cases l with
@@ -766,8 +768,8 @@ theorem scanNext_line (dn : Bool) (l t : Bytes) (hl : FieldLineOk l) (ht : contE
   obtain ⟨key, value, hs⟩ := scanNext_kv dn _ h1 h2 _ _ _ hx hn' (by omega) hB1
   refine ⟨key, value, ?_⟩
   rw [hs]
-  have hdrop : ∀ j, (((l ++ 13 :: 10 :: t).drop (n + 1)).drop (((l ++ 13 :: 10 :: t).drop (n + 1)).takeWhile (· == 32)).length).drop
-      (l.length + 1 - (n + 1) - (((l ++ 13 :: 10 :: t).drop (n + 1)).takeWhile (· == 32)).length + j) =
+  have hdrop : ∀ j, (((l ++ 13 :: 10 :: t).drop (n + 1)).drop (((l ++ 13 :: 10 :: t).drop (n + 1)).takeWhile isOWS).length).drop
+      (l.length + 1 - (n + 1) - (((l ++ 13 :: 10 :: t).drop (n + 1)).takeWhile isOWS).length + j) =
       (l ++ 13 :: 10 :: t).drop (l.length + 1 + j) := by
     intro j
     rw [List.drop_drop, List.drop_drop]
@@ -776,8 +778,8 @@ theorem scanNext_line (dn : Bool) (l t : Bytes) (hl : FieldLineOk l) (ht : contE
   have hend : (l ++ 13 :: 10 :: t).drop (l.length + 1 + 1) = t := by
     have : l ++ 13 :: 10 :: t = (l ++ [13, 10]) ++ t := by simp
     rw [this, List.drop_left' (by simp)]
-  have hce : contExtra ((((l ++ 13 :: 10 :: t).drop (n + 1)).drop (((l ++ 13 :: 10 :: t).drop (n + 1)).takeWhile (· == 32)).length).drop
-      (l.length + 1 - (n + 1) - (((l ++ 13 :: 10 :: t).drop (n + 1)).takeWhile (· == 32)).length + 1)) = 0 := by
+  have hce : contExtra ((((l ++ 13 :: 10 :: t).drop (n + 1)).drop (((l ++ 13 :: 10 :: t).drop (n + 1)).takeWhile isOWS).length).drop
+      (l.length + 1 - (n + 1) - (((l ++ 13 :: 10 :: t).drop (n + 1)).takeWhile isOWS).length + 1)) = 0 := by
     rw [hdrop 1, hend]; exact ht
   rw [hce]
   simp only [Nat.add_zero]
@@ -849,13 +851,13 @@ theorem parseTrailerLoop_lines (dn : Bool) (rest : Bytes) : ∀ (ls : List Bytes
 /-- on a trailer section of field lines `parseTrailer` is the scanning loop from the first byte: the
 "skip a repeated `0\r\n` line" branch is not taken, also when the first field name starts with `0` -/
 theorem parseTrailer_lines (dn : Bool) (tr : List (Bytes × Option Bytes)) (ls : List Bytes) (rest : Bytes)
-    (h : ∀ l ∈ ls, TrFieldOk l) :
+    (h : ∀ l ls', ls = l :: ls' → 10 ∉ l ∧ 58 ∈ l) :
     parseTrailer dn tr (encTrailer ls ++ rest) =
       parseTrailerLoop dn ((encTrailer ls ++ rest).length + 1) (encTrailer ls ++ rest) tr false 0 := by
   cases ls with
   | nil => simp [encTrailer, encLines, parseTrailer]
   | cons l ls' =>
-    obtain ⟨h10, h58, _⟩ := h l (by simp)
+    obtain ⟨h10, h58⟩ := h l ls' rfl
     cases l with
     | nil => simp at h58
     | cons a l1 =>
@@ -897,7 +899,8 @@ theorem readTrailerReq_lines (cfg : Cfg) (e : End) (names : List Bytes) (ls : Li
   have hne : (encTrailer ls ++ rest).isEmpty = false := by
     cases ls <;> simp [encTrailer, encLines]
   have hbuf : encTrailer ls ++ rest = encLines ls ++ 13 :: 10 :: rest := by simp [encTrailer]
-  have hpt := parseTrailer_lines cfg.disableNorm (names.map (fun k => (k, none))) ls rest h
+  have hpt := parseTrailer_lines cfg.disableNorm (names.map (fun k => (k, none))) ls rest
+    (fun l ls' hl => by have := h l (by simp [hl]); exact ⟨this.1, this.2.1⟩)
   have hfuel : ls.length + 1 ≤ (encTrailer ls ++ rest).length + 1 := by
     have := length_le_encLines ls
     simp only [encTrailer, List.length_append]; omega
@@ -1154,4 +1157,216 @@ theorem streamLoop_after (cfg : Cfg) (e : End) (c : Consume) (fuel : Nat) (first
         | .either rest => .maybeClosed :: streamLoop cfg e c fuel false rest := by
   simp only [streamLoop, hgo, hp, hb, hk, Bool.false_eq_true, if_false]
   cases a <;> rfl
+/-! ### obs-fold: continuation lines of a trailer field -/
+
+/-- inside a continuation line: up to and including its LF -/
+theorem contAux_inLine (u : Bytes) : ∀ (l : Bytes) (committed cur : Nat), 10 ∉ l → 58 ∉ l →
+    contAux committed cur true (l ++ 13 :: 10 :: u) = contAux (committed + (cur + l.length + 1) + 1) 0 false u
+  | [], committed, cur, _, _ => by
+    simp [contAux]
+  | c :: l, committed, cur, h10, h58 => by
+    have hc10 : ¬ c = 10 := fun h => h10 (by simp [h])
+    have hc58 : ¬ c = 58 := fun h => h58 (by simp [h])
+    have := contAux_inLine u l committed (cur + 1) (fun h => h10 (by simp [h])) (fun h => h58 (by simp [h]))
+    simp only [List.cons_append, contAux, Bool.not_true, Bool.false_eq_true, if_false, hc10, hc58, this, List.length_cons]
+    congr 1
+    omega
+
+/-- a continuation line (without its CRLF): starts with a blank, no LF, no colon -/
+def TrContOk (l : Bytes) : Prop := 10 ∉ l ∧ 58 ∉ l ∧ ∃ b t, l = b :: t ∧ (b = 32 ∨ b = 9)
+
+/-- the look-ahead commits exactly the continuation lines -/
+theorem contAux_lines (t : Bytes) (ht : ∀ c t', t = c :: t' → c ≠ 32 ∧ c ≠ 9) : ∀ (conts : List Bytes) (committed cur : Nat),
+    (∀ l ∈ conts, TrContOk l) →
+    contAux committed cur false (encLines conts ++ t) = committed + (encLines conts).length
+  | [], committed, cur, _ => by
+    simp only [encLines, List.nil_append, List.length_nil, Nat.add_zero]
+    cases t with
+    | nil => rfl
+    | cons c t' =>
+      obtain ⟨h32, h9⟩ := ht c t' rfl
+      simp [contAux, h32, h9]
+  | l :: conts, committed, cur, h => by
+    obtain ⟨h10, h58, b, l', hl, hb⟩ := h l (by simp)
+    subst hl
+    have hb' : (b = 32 ∨ b = 9) = True := by simp [hb]
+    have h10' : (10 : UInt8) ∉ l' := fun hm => h10 (by simp [hm])
+    have h58' : (58 : UInt8) ∉ l' := fun hm => h58 (by simp [hm])
+    have ih := contAux_lines t ht conts (committed + (1 + l'.length + 1) + 1) 0 (fun x hx => h x (by simp [hx]))
+    have hA := contAux_inLine (encLines conts ++ t) l' committed 1 h10' h58'
+    simp only [encLines, List.cons_append, List.append_assoc, contAux, Bool.not_false, hb', if_true]
+    rw [hA, ih]
+    simp only [List.length_cons, List.length_append]
+    omega
+
+
+/-- one call of the header scanner on a field line followed by continuation text `u` that the
+look-ahead commits entirely: the scanner consumes the line and `u` -/
+theorem scanNext_line_ext (dn : Bool) (l u t : Bytes) (hl : FieldLineOk l) (hc : contExtra (u ++ t) = u.length) :
+    ∃ key value, scanNext dn (l ++ 13 :: 10 :: (u ++ t)) = .kv key value t (l.length + 2 + u.length) := by
+  obtain ⟨h10, h58⟩ := hl
+  obtain ⟨n, hn, hnl⟩ := indexByte_mem 58 l h58
+  have hn' : indexByte 58 (l ++ 13 :: 10 :: (u ++ t)) = some n := indexByte_append 58 l _ n hn
+  have hx : indexByte 10 (l ++ 13 :: 10 :: (u ++ t)) = some (l.length + 1) := by
+    have := indexByte_at 10 (u ++ t) (l ++ [13]) (by simp [h10])
+    simpa using this
+  have hA : indexByte 10 ((l ++ 13 :: 10 :: (u ++ t)).drop (n + 1)) = some (l.length + 1 - (n + 1)) :=
+    indexByte_drop 10 _ (n + 1) _ hx (by omega)
+  have hsp := takeWhile_sp_le _ _ hA
+  have hB1 := indexByte_drop 10 _ (((l ++ 13 :: 10 :: (u ++ t)).drop (n + 1)).takeWhile isOWS).length _ hA hsp
+  have h1 : ∀ t', l ++ 13 :: 10 :: (u ++ t) ≠ 13 :: 10 :: t' := by
+    intro t' h
+    cases l with
+    | nil => simp at h58
+    | cons a l =>
+      cases l with
+      | nil => simp at h
+      | cons b l => simp at h; simp [h.2.1] at h10
+  have h2 : ∀ t', l ++ 13 :: 10 :: (u ++ t) ≠ 10 :: t' := by
+    intro t' h
+    cases l with
+    | nil => simp at h
+    | cons a l => simp at h; simp [h.1] at h10
+  obtain ⟨key, value, hs⟩ := scanNext_kv dn _ h1 h2 _ _ _ hx hn' (by omega) hB1
+  refine ⟨key, value, ?_⟩
+  rw [hs]
+  have hdrop : ∀ j, (((l ++ 13 :: 10 :: (u ++ t)).drop (n + 1)).drop (((l ++ 13 :: 10 :: (u ++ t)).drop (n + 1)).takeWhile isOWS).length).drop
+      (l.length + 1 - (n + 1) - (((l ++ 13 :: 10 :: (u ++ t)).drop (n + 1)).takeWhile isOWS).length + j) =
+      (l ++ 13 :: 10 :: (u ++ t)).drop (l.length + 1 + j) := by
+    intro j
+    rw [List.drop_drop, List.drop_drop]
+    congr 1
+    omega
+  have hend : (l ++ 13 :: 10 :: (u ++ t)).drop (l.length + 1 + 1) = u ++ t := by
+    have : l ++ 13 :: 10 :: (u ++ t) = (l ++ [13, 10]) ++ (u ++ t) := by simp
+    rw [this, List.drop_left' (by simp)]
+  have hend2 : (l ++ 13 :: 10 :: (u ++ t)).drop (l.length + 1 + (u.length + 1)) = t := by
+    have : l ++ 13 :: 10 :: (u ++ t) = (l ++ [13, 10] ++ u) ++ t := by simp
+    rw [this, List.drop_left' (by simp; omega)]
+  have hce : contExtra ((((l ++ 13 :: 10 :: (u ++ t)).drop (n + 1)).drop (((l ++ 13 :: 10 :: (u ++ t)).drop (n + 1)).takeWhile isOWS).length).drop
+      (l.length + 1 - (n + 1) - (((l ++ 13 :: 10 :: (u ++ t)).drop (n + 1)).takeWhile isOWS).length + 1)) = u.length := by
+    rw [hdrop 1, hend]; exact hc
+  rw [hce, Nat.add_assoc _ u.length 1, hdrop (u.length + 1), hend2]
+  congr 1
+  omega
+
+/-- a trailer field: its line and its continuation lines -/
+abbrev TrField := Bytes × List Bytes
+
+def TrField.Ok (f : TrField) : Prop := TrFieldOk f.1 ∧ ∀ l ∈ f.2, TrContOk l
+
+/-- the lines of a list of fields, in wire order -/
+def fieldLines : List TrField → List Bytes
+  | [] => []
+  | f :: fs => f.1 :: (f.2 ++ fieldLines fs)
+
+theorem encLines_append : ∀ a b : List Bytes, encLines (a ++ b) = encLines a ++ encLines b
+  | [], b => rfl
+  | l :: a, b => by simp [encLines, encLines_append a b]
+
+theorem noCont_after (rest : Bytes) (fs : List TrField) (h : ∀ f ∈ fs, TrField.Ok f) :
+    ∀ c t', encLines (fieldLines fs) ++ 13 :: 10 :: rest = c :: t' → c ≠ 32 ∧ c ≠ 9 := by
+  intro c t' heq
+  cases fs with
+  | nil =>
+    simp only [fieldLines, encLines, List.nil_append, List.cons.injEq] at heq
+    rw [← heq.1]; decide
+  | cons f fs' =>
+    obtain ⟨⟨_, h58, hhd⟩, _⟩ := h f (by simp)
+    cases hf : f.1 with
+    | nil => simp [hf] at h58
+    | cons a l' =>
+      simp only [fieldLines, encLines, hf, List.cons_append, List.cons.injEq] at heq
+      rw [← heq.1]; exact hhd a l' hf
+
+theorem parseTrailerLoop_fields (dn : Bool) (rest : Bytes) : ∀ (fs : List TrField) (fuel : Nat)
+    (tr : List (Bytes × Option Bytes)) (err : Bool) (hlen : Nat),
+    (∀ f ∈ fs, TrField.Ok f) → fs.length + 1 ≤ fuel →
+    parseTrailerLoop dn fuel (encLines (fieldLines fs) ++ 13 :: 10 :: rest) tr err hlen = .error .bad ∨
+    ∃ tr', parseTrailerLoop dn fuel (encLines (fieldLines fs) ++ 13 :: 10 :: rest) tr err hlen =
+      .ok (tr', hlen + (encLines (fieldLines fs)).length + 2)
+  | _, 0, _, _, _, _, hf => by omega
+  | [], fuel + 1, tr, err, hlen, _, _ => by
+    simp only [fieldLines, encLines, List.nil_append, parseTrailerLoop, scanNext, List.length_nil, Nat.add_zero]
+    cases err
+    · exact Or.inr ⟨tr, by simp⟩
+    · exact Or.inl (by simp)
+  | f :: fs, fuel + 1, tr, err, hlen, h, hf => by
+    obtain ⟨hfl, hconts⟩ := h f (by simp)
+    have hfs : ∀ x ∈ fs, TrField.Ok x := fun x hx => h x (by simp [hx])
+    have hc : contExtra (encLines f.2 ++ (encLines (fieldLines fs) ++ 13 :: 10 :: rest)) = (encLines f.2).length := by
+      have := contAux_lines _ (noCont_after rest fs hfs) f.2 0 0 hconts
+      simpa [contExtra] using this
+    obtain ⟨key, value, hs⟩ := scanNext_line_ext dn f.1 (encLines f.2) (encLines (fieldLines fs) ++ 13 :: 10 :: rest)
+      ⟨hfl.1, hfl.2.1⟩ hc
+    have heq : encLines (fieldLines (f :: fs)) ++ 13 :: 10 :: rest =
+        f.1 ++ 13 :: 10 :: (encLines f.2 ++ (encLines (fieldLines fs) ++ 13 :: 10 :: rest)) := by
+      simp [fieldLines, encLines, encLines_append]
+    rw [heq]
+    obtain ⟨tr', err', hstep⟩ := parseTrailerLoop_kv dn fuel _ tr err hlen key value _ _ hs
+    rw [hstep]
+    have := parseTrailerLoop_fields dn rest fs fuel tr' err' (hlen + (f.1.length + 2 + (encLines f.2).length)) hfs
+      (by simp at hf; omega)
+    have hlen' : hlen + (f.1.length + 2 + (encLines f.2).length) + (encLines (fieldLines fs)).length + 2 =
+        hlen + (f.1 ++ 13 :: 10 :: (encLines f.2 ++ encLines (fieldLines fs))).length + 2 := by
+      simp only [List.length_append, List.length_cons]; omega
+    have hl2 : (encLines (fieldLines (f :: fs))).length = (f.1 ++ 13 :: 10 :: (encLines f.2 ++ encLines (fieldLines fs))).length := by
+      simp [fieldLines, encLines, encLines_append]
+    rw [hlen'] at this
+    rw [hl2]
+    exact this
+
+theorem TrContOk.lineOk {l : Bytes} (h : TrContOk l) : TrLineOk l := by
+  obtain ⟨h10, _, b, t, hl, _⟩ := h
+  exact ⟨by rw [hl]; simp, h10⟩
+
+theorem fieldLines_lineOk : ∀ (fs : List TrField), (∀ f ∈ fs, TrField.Ok f) → ∀ l ∈ fieldLines fs, TrLineOk l
+  | [], _, l, hl => by simp [fieldLines] at hl
+  | f :: fs, h, l, hl => by
+    obtain ⟨hf, hc⟩ := h f (by simp)
+    simp only [fieldLines, List.mem_cons, List.mem_append] at hl
+    rcases hl with hl | hl | hl
+    · rw [hl]; exact hf.lineOk
+    · exact (hc l hl).lineOk
+    · exact fieldLines_lineOk fs (fun x hx => h x (by simp [hx])) l hl
+
+theorem length_le_fieldLines : ∀ fs : List TrField, fs.length ≤ (fieldLines fs).length
+  | [] => by simp [fieldLines]
+  | f :: fs => by
+    have := length_le_fieldLines fs
+    simp only [fieldLines, List.length_cons, List.length_append]; omega
+
+/-- `ReadTrailer` on a trailer section of fields with obs-fold continuation lines: rejected, or consumed
+exactly -/
+theorem readTrailerReq_fields (cfg : Cfg) (e : End) (names : List Bytes) (fs : List TrField) (rest : Bytes)
+    (h : ∀ f ∈ fs, TrField.Ok f) :
+    TrailerReadExact cfg e names (encTrailer (fieldLines fs)) rest := by
+  intro o r' hr
+  have hne : (encTrailer (fieldLines fs) ++ rest).isEmpty = false := by
+    cases hfl : fieldLines fs <;> simp [encTrailer, encLines]
+  have hbuf : encTrailer (fieldLines fs) ++ rest = encLines (fieldLines fs) ++ 13 :: 10 :: rest := by simp [encTrailer]
+  have hpt := parseTrailer_lines cfg.disableNorm (names.map (fun k => (k, none))) (fieldLines fs) rest
+    (fun l ls' hl => by
+      cases fs with
+      | nil => simp [fieldLines] at hl
+      | cons f fs' =>
+        simp only [fieldLines, List.cons.injEq] at hl
+        have := (h f (by simp)).1
+        rw [← hl.1]; exact ⟨this.1, this.2.1⟩)
+  have hfuel : fs.length + 1 ≤ (encTrailer (fieldLines fs) ++ rest).length + 1 := by
+    have h1 := length_le_encLines (fieldLines fs)
+    have h2 := length_le_fieldLines fs
+    simp only [encTrailer, List.length_append]; omega
+  simp only [readTrailerReq, hne, Bool.false_eq_true, if_false, hpt] at hr
+  rw [hbuf] at hr hfuel
+  rcases parseTrailerLoop_fields cfg.disableNorm rest fs _ (names.map (fun k => (k, none))) false 0 h hfuel with hb | ⟨tr', hok⟩
+  · rw [hb] at hr; simp at hr
+  · rw [hok] at hr
+    simp only [Except.ok.injEq, Prod.mk.injEq] at hr
+    obtain ⟨ho, hr'⟩ := hr
+    refine ⟨by rw [← ho]; rfl, ?_⟩
+    rw [← hr']
+    have : encLines (fieldLines fs) ++ 13 :: 10 :: rest = (encLines (fieldLines fs) ++ [13, 10]) ++ rest := by simp
+    rw [this, List.drop_left' (by simp)]
+
 end Hertz.H1.Stream
